@@ -258,6 +258,22 @@ def d33():
   return None if any(abs(v) > 1e-12 for v in vals) else 'SubBalancedDeviceSet: unbalanced label a1 accepted, all constraint values %s' % vals
 
 
+def d34():
+  from device_kit.loaders.builder_loader import load_supply_device
+  out = []
+  for basis, runs, want in [(2, {'0': [1, 5], '1': [0, 2]}, [[-5, -1], [-2, 0]]), (3, {'0': [1, 5], '2': [0, 2]}, [[-5, -1], [-5, -1], [-2, 0]])]:
+    try:
+      d = load_supply_device({'type': 'supply', 'bounds': {'basis': basis, 'runs': runs}, 'costs': {}}, basis)
+      if d.bounds.tolist() != want: out.append('basis %d: bounds %s, expected %s' % (basis, d.bounds.tolist(), want))
+    except Exception as e:
+      out.append('basis %d: %s' % (basis, type(e).__name__))
+  try:
+    d = load_supply_device({'type': 'supply', 'bounds': {'basis': 3, 'runs': {'0': [1, 5]}}, 'costs': {'flow_bounds_relative': {'basis': 3, 'runs': {'0': [-2, -1]}}}}, 3)
+  except Exception as e:
+    out.append('supply with flow_bounds_relative: %s' % type(e).__name__)
+  return None if not out else 'load_supply_device: ' + '; '.join(out)
+
+
 if __name__ == '__main__':
   names = [a for a in sys.argv[2:]] or sorted(k for k in globals() if k[0] == 'd' and k[1:3].isdigit())
   bad = 0
